@@ -729,7 +729,24 @@ theorem denote_nr {db : Db} {sch : Sched} (hs : ValidSched sch) :
               exact joinNode_nr hs rfl rfl (aug_nr (augment_forall2 kl ctx L L' haL) (ihl ctx L hnl hl))
                 (aug_nr (augment_forall2 kr ctx R R' haR) (ihr ctx R hnr hr)) h
         · cases h
-  | lookupJoin s j _ _ => intro ctx out hn _; simp [Plan.noRetr] at hn
+  | lookupJoin s j ihs ihj =>
+    intro ctx out hn h
+    simp only [Plan.noRetr, Bool.and_eq_true] at hn
+    simp only [denote] at h
+    cases hsd : denote sch db s ctx with
+    | none => simp [hsd] at h
+    | some L =>
+      simp only [hsd] at h
+      obtain ⟨hall, rfl⟩ := lookupRecs_eq _ L out h
+      have hL := ihs ctx L hn.1 hsd
+      intro x hx
+      unfold glookup at hx
+      simp only [List.mem_flatMap, List.mem_map] at hx
+      obtain ⟨l, hl, r, hr, rfl⟩ := hx
+      obtain ⟨R, hR⟩ := hall l hl
+      simp only [hR, Option.getD_some] at hr
+      have hr' := ihj (ctx ++ l.vals) R hn.2 hR r hr
+      simp [lookPair, hL l hl, hr']
 
 /-- printing the values of a retraction-free changelog prints its consolidated content -/
 theorem raw_count : ∀ (rs : List Rec), NR rs → ∀ row, (countRow row (rs.map fun r => r.vals) : Int) = net rs row
